@@ -2672,8 +2672,8 @@ func createBreachRetributionLegacy(revokedLog *channeldb.ChannelCommitment,
 	// With the commitment outputs located, we'll now generate all the
 	// retribution structs for each of the HTLC transactions active on the
 	// remote commitment transaction.
-	htlcRetributions := make([]HtlcRetribution, len(revokedLog.Htlcs))
-	for i, htlc := range revokedLog.Htlcs {
+	htlcRetributions := make([]HtlcRetribution, 0, len(revokedLog.Htlcs))
+	for _, htlc := range revokedLog.Htlcs {
 		// If the HTLC is dust, then we'll skip it as it doesn't have
 		// an output on the commitment transaction.
 		if HtlcIsDust(
@@ -2699,7 +2699,7 @@ func createBreachRetributionLegacy(revokedLog *channeldb.ChannelCommitment,
 		if err != nil {
 			return nil, 0, 0, err
 		}
-		htlcRetributions[i] = hr
+		htlcRetributions = append(htlcRetributions, hr)
 	}
 
 	// Compute the balances in satoshis.
